@@ -237,3 +237,24 @@ Print Assumptions C11_translated_sum_is_model.
 Print Assumptions C11_translated_retrieve_is_model.
 Print Assumptions C11_translated_setitem_keeps_invariant.
 Print Assumptions C11_translated_retrieve_in_tree.
+
+(* ---- PrioritizedReplayBuffer.__init__: tree_capacity = 1; while tree_capacity < max_size: tree_capacity *= 2 ---- *)
+Theorem C11_translated_tree_capacity_is_model :
+  forall (m fuel : nat), m < fuel ->
+    PrioritizedReplayBuffer_tree_capacity fuel (Z.of_nat m) = Ok (Z.of_nat (tree_capacity m)).
+Proof.
+  intros m fuel Hf. unfold PrioritizedReplayBuffer_tree_capacity, tree_capacity. cbv zeta.
+  match goal with |- context [while_loop _ ?step _] => set (STEP := step) end.
+  assert (L : forall n fuelG fuelM c zc, 1 <= c -> m <= c + n -> n < fuelG -> n <= fuelM -> zc = Z.of_nat c ->
+             while_loop fuelG STEP zc = Ok (Z.of_nat (tcap_go fuelM c m))).
+  { induction n as [|n IH]; intros fuelG fuelM c zc Hc Hm HG HM ->;
+      (destruct fuelG as [|fG]; [lia|]); rewrite while_loop_S; unfold STEP at 1; cbn [bind].
+    - destruct (Z.ltb_spec (Z.of_nat c) (Z.of_nat m)); [lia|]. cbn [bind].
+      destruct fuelM; cbn [tcap_go]; [reflexivity|]. destruct (Nat.ltb_spec c m); [lia|reflexivity].
+    - destruct (Z.ltb_spec (Z.of_nat c) (Z.of_nat m)) as [Hlt|Hge]; cbn [bind].
+      + destruct fuelM as [|fM]; [lia|]. cbn [tcap_go]. destruct (Nat.ltb_spec c m); [|lia].
+        apply (IH fG fM (2 * c)); lia.
+      + destruct fuelM; cbn [tcap_go]; [reflexivity|]. destruct (Nat.ltb_spec c m); [lia|reflexivity]. }
+  apply (L m fuel m 1); lia.
+Qed.
+Print Assumptions C11_translated_tree_capacity_is_model.
